@@ -8,7 +8,7 @@ import TexcraftModel.Model.C04Algo
 
 * `force` 0/1 = `force_solution`; `q` = looseness; `k = -1` means the implementation returned `None`.
 * `<inst>` = `tol emerg linePen hyphPen exHyphPen adj dbl fin  lw lst lso lsh  rw rst rso rsh  nW w..  nI items..`
-  items: `0 w` box | `1` inert | `2 w st so sh` glue | `3 e w` kern | `4 p` penalty |
+  items: `0 w` box | `1` inert | `2 w st so sh` glue | `3 kind w` kern (kind 1 = explicit; 0 normal, 2 accent, 3 math) | `4 p` penalty |
   `5 npre pre.. npost post.. r` disc | `6 after` math.
 * candidates: every `log_feasible_breakpoint` of the run: previous break `a` (−1 = start), line
   number `L`, previous fitness class `pf`, break `b`, and the logged badness, penalty, demerits,
@@ -32,7 +32,7 @@ def decItem (c : Cur) : Option (Item × Cur) :=
   | 0 :: w :: t => some (.box w, t)
   | 1 :: t => some (.inert, t)
   | 2 :: w :: st :: so :: sh :: t => do pure (.glue ⟨w, st, (← nat? so), sh⟩, t)
-  | 3 :: e :: w :: t => some (.kern (e != 0) w, t)
+  | 3 :: e :: w :: t => some (.kern (e == 1) w, t)     -- 0 normal, 1 explicit, 2 accent, 3 math
   | 4 :: p :: t => some (.penalty p, t)
   | 5 :: t => do
       let (pre, t) ← takeList t
@@ -200,6 +200,82 @@ def thmField (force : Bool) (q : Int) (x : Inst) (all : List (Option Int)) (a : 
         if bs.length = tgt.toNat ∧ total x bs = some d then "ok:loose" else "bad:loose"
       | _, _ => "bad:loose"
 
+/-! ### The pass driver (`break_line` → `break_line_all_attempts`, lib.rs:247-269, :440-490)
+
+Request `passes <q> <pretol> <pfw> <pfst> <pfso> <pfsh> <inst> <nH> (pos pre)* <k> <nres> b..`:
+`inst` holds the list as the caller passes it to `break_line` (tolerance = `\tolerance`,
+emerg = `\emergencystretch`), `pf..` is `\parfillskip`, `(pos pre)*` are the places where the
+hyphenator inserts a discretionary (before the item with index `pos` of the caller's list,
+pre-break width `pre`, nothing replaced), `k` is the attempt (1, 2, 3) in which the real code
+answered and `b..` its breakpoints. TeX.2021.816: a final glue is removed, `\penalty10000` and
+`\parfillskip` are appended; TeX.2021.863: first pass with `\pretolerance` on the unhyphenated
+list, second pass with `\tolerance` on the hyphenated list (final iff no emergency stretch), third
+pass with the emergency stretch, final. Every pass is judged with the proved reference for its
+own parameters: the passes before `k` must have had no answer, pass `k` must have the right one. -/
+
+def decPairs : Nat → Cur → Option (List (Nat × Int) × Cur)
+  | 0, c => some ([], c)
+  | n + 1, pos :: pre :: t => do
+    let (r, c) ← decPairs n t
+    pure ((← nat? pos, pre) :: r, c)
+  | _, _ => none
+
+/-- Judge the real outcome (answer `res` in attempt `k`) pass by pass. -/
+def judgePasses (q : Int) (ps : List Pass) (k : Nat) (res : List Nat) : String :=
+  let rec go (j : Nat) : List Pass → String
+    | [] => "bad:pass" ++ toString k ++ ":no-such-pass"
+    | p :: t =>
+      let v := judge p.force q p.x (dpAllFast p.x) (if j = k then some res else none)
+      if v = "ok" then (if j = k then "ok" else go (j + 1) t)
+      else if v.startsWith "skip" then v
+      else s!"bad:pass{j}:{v.drop 4}"
+  go 1 ps
+
+def handlePasses (ws : List Int) : String :=
+  match ws with
+  | q :: pretol :: pfw :: pfst :: pfso :: pfsh :: rest =>
+    match decInst rest with
+    | some (x, nH :: t) =>
+      match decPairs nH.toNat t with
+      | some (hs, k :: nres :: t') =>
+        match takeN nres.toNat t' with
+        | some (bs, _) =>
+          match nat? pfso with
+          | some so =>
+            let ps := passesOf x pretol ⟨pfw, pfst, so, pfsh⟩ (fun l => insertDiscs l hs)
+            let res := bs.map Int.toNat
+            let ok := ps.all fun p => !p.x.p.widths.isEmpty ∧ discOK p.x
+            let m := if ok then
+                match algoPasses q 1 ps with
+                | some (km, b) => s!"{km}:[" ++ ",".intercalate (b.map toString) ++ "]"
+                | none => "none"
+              else "skip"
+            -- the list after `break_line`: hyphenated iff a second pass ran
+            let len := match ps[k.toNat - 1]? with | some p => p.x.n | none => 0
+            let v := if ok then judgePasses q ps k.toNat res else "skip:disc-malformed"
+            -- natural width of every line of the real answer as the breaker measured it
+            let nat := match ps[k.toNat - 1]? with
+              | some p =>
+                -- first item of the line that starts after a break at `a` (cf. `afterRef`); a break inside
+                -- the pruned run of discardables gives a degenerate line (TeX.2021.837 measures beyond the
+                -- break, TeX.2021.879 prunes only up to it): not compared (`x`)
+                let start : Option Nat → Nat
+                  | none => 0
+                  | some a => match p.x.items[a]? with
+                    | some (.disc _ post r) => if post.isEmpty then pruneEnd p.x.items (a + 1 + r) else a + 1 + r
+                    | _ => pruneEnd p.x.items a
+                let rec go (a : Option Nat) : List Nat → List String
+                  | [] => []
+                  | b :: t => (if b < start a then "x" else toString (lineTotals p.x a b).w) :: go (some b) t
+                ",".intercalate (go none res)
+              | none => ""
+            s!"pverdict={v} pmodel={m} plen={len} pnat={nat}"
+          | none => "bad-request:pf"
+        | none => "bad-request:res"
+      | _ => "bad-request:hyph"
+    | _ => "bad-request:inst"
+  | _ => "bad-request:passes"
+
 def handle (line : String) : String :=
   match words line with
   | "judge" :: ws =>
@@ -227,6 +303,10 @@ def handle (line : String) : String :=
         | _ => "bad-request:result"
       | _ => "bad-request:inst"
     | _ => "bad-request:ints"
+  | "passes" :: ws =>
+    match ints? ws with
+    | some l => handlePasses l
+    | none => "bad-request:ints"
   | _ => "bad-request"
 
 end DrvC04
